@@ -69,6 +69,66 @@ func consumedOr(keep string) func(r abs.Result, field string) (abs.Value, bool) 
 	}
 }
 
+// checkCsidDomain: for chunk stream ids outside 2..63 both header generators must fall back to one and the same id
+// inside 2..63 (0 and 1 select the 2- and 3-byte basic header forms, larger ids do not fit the 6-bit field).
+func checkCsidDomain(c *Ctx, l *layoutCtx) {
+	P, R := c.P, c.R
+	mh := "v.messageHeader."
+	parts := []struct {
+		name   string
+		lo, hi int64
+	}{{"csid<2", 0, 1}, {"csid>63", 64, 1<<32 - 1}}
+	for _, part := range parts {
+		first := map[string]int64{} // generator -> constant first byte (low 6 bits)
+		var problems []string
+		for _, g := range []string{"(*Message).generateC0Header", "(*Message).generateC3Header"} {
+			fn := P.Func("rtmp", g)
+			if !R.Anchor(fn != nil, "C01.hdr", "rtmp."+g) {
+				return
+			}
+			v := Variant{Dom: map[string]Dom{mh + "Timestamp": {W: 31, Hi: -1}, mh + "payloadLength": {W: 24, Hi: -1}, mh + "MessageType": {W: 8, Hi: -1},
+				mh + "streamID": {W: 32, Hi: -1}, mh + "betterCid": {W: 32, Lo: part.lo, Hi: part.hi}}}
+			res := l.e.Run(fn, func(p *abs.Path) []abs.Value { v.apply(p); return l.e.AutoArgs(p, fn) })
+			for _, r := range res {
+				if pp := pathProblems(r); pp != "" {
+					problems = append(problems, "undecided: "+pp)
+					continue
+				}
+				segs, why := retBytes(0, 1)(r)
+				if why != "" || len(segs) == 0 || segs[0].Byte == nil {
+					problems = append(problems, g+": first header byte not determined "+why)
+					continue
+				}
+				val, known := int64(0), true
+				for i := 0; i < 6; i++ {
+					switch segs[0].Byte.Bits[i].K {
+					case abs.B1:
+						val |= 1 << uint(i)
+					case abs.B0:
+					default:
+						known = false
+					}
+				}
+				if !known {
+					problems = append(problems, fmt.Sprintf("%s writes the low bits of a chunk stream id outside 2..63 into the 6-bit field (%s): the ids 0 and 1 announce a 2- or 3-byte basic header that is not written, larger ids are truncated, and the peer cannot parse the chunk", g, segs[0].Byte))
+					continue
+				}
+				if val < 2 || val > 63 {
+					problems = append(problems, fmt.Sprintf("%s falls back to chunk stream id %d, which is not in 2..63", g, val))
+				}
+				if old, ok := first[g]; ok && old != val {
+					problems = append(problems, g+" uses different fallback ids on different paths")
+				}
+				first[g] = val
+			}
+		}
+		if a, b := first["(*Message).generateC0Header"], first["(*Message).generateC3Header"]; len(problems) == 0 && a != b {
+			problems = append(problems, fmt.Sprintf("the first chunk uses chunk stream id %d and the continuation chunks %d", a, b))
+		}
+		report(R, "C01.hdr", "rtmp|(*Message).generateC0Header/generateC3Header|"+part.name, "rtmp/rtmp.go", "a message without a usable chunk stream id is written on one fixed id in 2..63", "", dedup(problems), nil)
+	}
+}
+
 func runC01(c *Ctx) {
 	P, R := c.P, c.R
 	R.Require("C01.hdr", 8)
@@ -99,6 +159,9 @@ func runC01(c *Ctx) {
 		{Name: "timestamp<0xffffff", Dom: dom(), Assume: small, Spec: abs.Pack(abs.K(2, 3), abs.F(mh+"betterCid", 5, 0))},
 		{Name: "timestamp>=0xffffff", Dom: dom(), Assume: large, Spec: abs.Cat(abs.Pack(abs.K(2, 3), abs.F(mh+"betterCid", 5, 0)), abs.BE(mh+"Timestamp", 4))},
 	}, retBytes(0, 1))
+	// the chunk stream id written must be one the 1-byte basic header can carry (2..63), whatever the message carries:
+	// a message made by NewMessage has none (0), a relayed one may have been read on a chunk stream >= 64
+	checkCsidDomain(c, l)
 	// reader side: the same layout through readBasicHeader + readMessageHeader (C02 rules share the machinery)
 	headerDecodeChecks(c, "C01.hdr", true)
 
@@ -243,29 +306,41 @@ func checkChunkSizeApplied(c *Ctx) {
 	R.Check(len(rd) > 0, "C01.csz", "rtmp|reader|applies-peer-chunk-size", P.Pos(rm.Pos()),
 		"the reader applies the peer's Set Chunk Size to its input settings",
 		"the reader never applies a received Set Chunk Size to its input settings: every following message larger than the old chunk size is mis-framed", nil)
-	wr := find(wp, "Protocol.output.opt.chunkSize")
-	if len(wr) == 0 {
-		R.Fail("C01.csz", "rtmp|writer|applies-own-chunk-size", P.Pos(wp.Pos()),
-			"a Set Chunk Size sent by this endpoint is never applied to its own output settings: the peer switches to the announced size while this writer keeps chunking with the old one, so every later message longer than the smaller of the two is mis-framed", nil)
-		return
-	}
-	// ordered after the transport flush of the announcing message: in WritePacket, the carrier of the store follows the carrier of Flush
-	st := P.Carriers(wp, "store:Protocol.output.opt.chunkSize")
-	fl := P.Carriers(wp, "call:(*bufio.Writer).Flush")
-	ok := len(st) > 0 && len(fl) > 0
-	for _, s := range st {
-		for _, f := range fl {
-			if s == f {
-				continue
-			}
-			if !core.Precedes(f, s) {
-				ok = false
+	// every exported way to put a message on the wire: a Set Chunk Size message is a message of type 1 whoever built it
+	// (WritePacket from a packet, WriteMessage from raw bytes, e.g. when relaying)
+	for _, entry := range []string{"(*Protocol).WritePacket", "(*Protocol).WriteMessage"} {
+		wfn := P.Func("rtmp", entry)
+		key := "rtmp|writer|applies-own-chunk-size"
+		if entry != "(*Protocol).WritePacket" {
+			key += "|" + entry
+		}
+		if !R.Anchor(wfn != nil, "C01.csz", "rtmp."+entry) {
+			continue
+		}
+		wr := find(wfn, "Protocol.output.opt.chunkSize")
+		if len(wr) == 0 {
+			R.Fail("C01.csz", key, P.Pos(wfn.Pos()),
+				"a Set Chunk Size message sent through "+entry+" is never applied to this endpoint's own output settings: the peer switches to the announced size while this writer keeps chunking with the old one, so every later message longer than the smaller of the two is mis-framed", nil)
+			continue
+		}
+		// ordered after the transport flush of the announcing message: the carrier of the store follows the carrier of Flush
+		st := P.Carriers(wfn, "store:Protocol.output.opt.chunkSize")
+		fl := P.Carriers(wfn, "call:(*bufio.Writer).Flush")
+		ok := len(st) > 0 && len(fl) > 0
+		for _, s := range st {
+			for _, f := range fl {
+				if s == f {
+					continue
+				}
+				if !core.Precedes(f, s) {
+					ok = false
+				}
 			}
 		}
+		R.Check(ok, "C01.csz", key, P.InstrPos(wr[0]),
+			"the writer applies its own announced chunk size after the announcing message was flushed",
+			"the writer's own chunk size is not applied strictly after the announcing Set Chunk Size message was flushed (the announcement itself must still be chunked with the old size)", nil)
 	}
-	R.Check(ok, "C01.csz", "rtmp|writer|applies-own-chunk-size", P.InstrPos(wr[0]),
-		"the writer applies its own announced chunk size after the announcing message was flushed",
-		"the writer's own chunk size is not applied strictly after the announcing Set Chunk Size message was flushed (the announcement itself must still be chunked with the old size)", nil)
 }
 
 // checkNilResultUse: callee may return (nil, nil); in caller, every dereferencing use of that
